@@ -28,6 +28,7 @@ def run(tier):
     for rel3, q3, c3 in T.ITEMS:
         if q3 == 'FactoredInference.estimate':
             reps.append(deductive.verify_function(rel3, q3, c3, hooks=T.hooks_for(c3), prefix='%s::%s[engine dispatch]' % (rel3, q3)))
+    reps += infer.purity_reports()
     return reps
 
 
